@@ -33,7 +33,7 @@ func init() {
 		Level: "exploration",
 		Rule: "case = one MCC (000..999): all 100 two-digit and all 1000 three-digit MNCs, each with a random MSIN of random legal length (odd and even); EncodeSuci is decoded by the independent SUCI decoder; " +
 			"every 16th PLMN also goes through the Registration / Deregistration Request constructors (parsed by ref/nas) and every 40th through NG Setup + InitialUEMessage + UplinkNASTransport (decoded by ref/per), " +
-			"where the PLMN octets must equal the independent PLMN encoding and nasConvert.PlmnIDToNas. thorough enumerates all 1000 MCCs (1.1M PLMNs, exhaustive); quick 150 MCCs spread by the seed. distinct = hash(MCC); all non-trivial",
+			"where the PLMN octets must equal the independent PLMN encoding and nasConvert.PlmnIDToNas. thorough enumerates all 1000 MCCs (1.1M PLMNs, exhaustive); quick 150 MCCs spread by the seed. One IMSI in four is re-read with the OTHER MNC length right after; every tenth case runs NG Setup + registration + deregistration in the procedure driver (identity clauses of the reference AMF incl. suci-supi), with the PLMN digits repeated inside the MSIN in one of four. distinct = hash(MCC); all non-trivial",
 		Assumptions: []string{"null-scheme SUCI, routing indicator and key identifier as the emulator fixes them (not part of the property)", "IMSI = MCC(3) MNC(2|3) MSIN(1..10), at most 15 digits"},
 		N: func(t string) int {
 			if t == "thorough" {
